@@ -65,6 +65,7 @@ let do_mop (w : string array) : unit =
     | "deletebias" -> let b = nn () in MDeleteBias b
     | "deletecolvar" -> let v = nn () in MDeleteColvar v
     | "reset" -> MReset
+    | "check" -> MReset   (* not executed: wf_check / acct_check of the given state *)
     | "enable" -> let o = nn () in let f = nn () in MPrim (OpEnable (o, f, false, true, false))
     | "disable" -> let o = nn () in let f = nn () in MPrim (OpDisable (o, f))
     | "newcolvar" ->
@@ -95,6 +96,9 @@ let do_mop (w : string array) : unit =
   let na = ni () in
   let atoms = List.init na (fun _ -> z_of_int (ni ())) in
   let m = { m_objs = st; m_info = info; m_atoms = atoms } in
+  if opname = "check" then
+    Printf.printf "%d %d\n" (if wf_check m then 1 else 0) (if acct_check m then 1 else 0)
+  else
   match m_step tabs fuel op m with
   | None -> print_string "FUEL\n"
   | Some m' -> Printf.printf "0 %s\n" (print_mstate m')
